@@ -40,4 +40,24 @@ PROPS = {
         ["seeded twins are bit-reproducible (C07)"],
         env={},
     ),
+    "C11": P(
+        "monitor 'rhat': generated sample arrays (1..16 chains, 4..5000 draws incl. odd lengths and lengths around the FFT switch, 1..8 parameters; families i.i.d., AR(1) with phi in (-0.9,0.99), trending, bimodal, disagreeing chains, constant and near-constant columns; scale log-uniform 1e-3..1e3, |location|/scale up to 1e3); the reported split R-hat of every parameter is compared with an independent f64 sqrt(var+/W) of the f32-quantised input (either n or n-1 within-variance convention), tolerance = 2e-3 relative + 50x the observed sensitivity to one-ulp input perturbations, plus R-hat >= sqrt((n-1)/n). monitor 'metamorphic': invariance under x->+-2^k x, x->ax+b, chain permutation, replacement of other parameters; growth when one chain is moved 30..3e5 sd away. monitors 'summary'/'runstats': basic_stats on vectors of length 1..64 (with ties, NaN, +-inf) and RunStats::from on arrays with up to 48 parameters some of them constant: min/max exact, median a middle order statistic, mean/sd within tolerance, never a panic. Distinct by array shape/families or by input hash.",
+        ["columns whose within-chain spread is below f32 resolution of their location are only checked for 'does not fail'"],
+    ),
+    "C12": P(
+        "monitor 'ess': generated arrays as in C11 (no constant columns), half-chain lengths on both sides of the 100-row switch between brute-force and FFT autocovariance and at powers of two +-1; reported ESS compared with an independent f64 Geyer estimator (direct-sum autocovariance, rho_t = 1-(W-acov_t)/var+, initial positive sequence, monotone clamp, tau=-1+2 sum, M*N/tau). The reference is set-valued: a pair sum within 3e-4 of zero may fall on either side; the reported value must match one reachable value under either within-variance convention (tolerance 4e-3 relative + 100x sensitivity). Coarse sanity bands reported separately (i.i.d.: ESS/MN in [0.7,1.4] for MN>=4000; AR(1): within a factor 2 of MN(1-phi)/(1+phi)). monitor 'metamorphic': affine rescaling, chain permutation, time reversal. Distinct by (chains, draws, params, families).",
+        ["pair sums within 3e-4 of zero are treated as undecidable for the f32/FFT implementation"],
+    ),
+    "C13": P(
+        "update sequences of length 2..5000 for 2..16 chains and 1..8 parameters, element types f32/f64/i32/usize, states repeating with probability 0..0.8 (rejections), |mean|/sd up to 30; every ChainTracker is fed step by step: count exact, mean and unbiased variance vs f64 batch statistics (conditioning-aware tolerance), p_accept in [0,1] and equal to the EMA recursion 0.99 p + 0.01 [state != previous] after every update (first value = first indicator, which is unambiguous by construction); collect_rhat of the trackers' stats and MultiChainTracker::rhat/max_rhat on the same draws vs the classical sqrt(var+/W); MultiChainTracker's EMA folded over chains. Distinct by (type, chains, params, length).",
+        ["variance tolerance grows with n*eps*(mean^2+var): the trackers hold running f32 means of x and x^2"],
+    ),
+    "C16": P(
+        "weight vectors of length 1..64 (uniform, random, log-uniform, dyadic; zeros at first/last/both ends/interior runs/random positions; magnitudes 1e-30..1e30; f32 and f64): probs sum to one and equal weights/sum, logp(i) = ln p_i, logp(>=len) = -inf incl. usize::MAX, Target<usize> agrees; then the uniform variate is injected through the verif hook Categorical::with_rng with crafted generator states: u = 0, smallest positive, 1-ulp, 1-2ulp, 0.5, every cumulative sum and its 4 neighbours, and a stratified grid of 1024 (thorough 4096) values; oracle: index in range, probs[index] > 0 always, fraction of grid cells mapped to i equals p_i within 2/grid. monitor 'freq': chi-square-style frequency check with ordinary seeds (6.5 sigma per cell). Distinct by probability vector hash.",
+        ["sample() consumes exactly one uniform of the distribution's generator (read back from a clone of the crafted state)"],
+    ),
+    "C18": P(
+        "monitor 'shape': (n,d) pairs (quick: seeded subset incl. all borders 0,1,2,255; thorough: the full 256x256 grid) and seeds {0,42,u64::MAX,random}: shape, finiteness, purity (two calls bit-identical), init_det == init_with_seed(42), prefix property against a request with 3 more rows, f32 values == f64 values rounded, two init() calls differ, seed matters. monitor 'dist': pooled entries (>= 2e5 per case) of init_with_seed over random seeds and of OS-seeded init: mean, variance, 4th moment, within-row and between-row lag-1 correlations (|z| <= 6.5) and Kolmogorov-Smirnov against N(0,1) (sqrt(n) D <= 2.6). Distinct by (n,d,seed).",
+        ["the distributional part has a bounded false-alarm probability (< 1e-5 per run) by construction of the thresholds"],
+    ),
 }
